@@ -87,6 +87,10 @@ func plan(tier string) []planned {
 		{"live holder, identity selected", []string{"cli:user-new", "open:1"}},
 		{"lock left by a killed holder", []string{"open:1", "kill:1"}},
 		{"lock left by a holder that exited without closing, identity and a bug", []string{"cli:user-new", "cli:bug-new", "open:1", "exit:1"}},
+		// commands that fail at a later stage than the others: while reading the web UI's configuration, and
+		// while building the cache (after the lock was taken)
+		{"identity selected, invalid git-bug.webui.open configuration value", []string{"cli:user-new", "prep:webui-open-invalid"}},
+		{"identity and a bug that cannot be read, cache files gone", []string{"cli:user-new", "cli:bug-new", "prep:bug-unreadable-cache-gone"}},
 	} {
 		ps = append(ps, planned{Config{Name: "command sweep: " + sit.name, Holders: 1, Prefix: sit.prefix, CLI: every, UCLI: every, Depth: 1}, 5 * time.Minute})
 	}
